@@ -518,11 +518,11 @@ func (e *env) expectReinject(op *Op) ([]int, bool) {
 // ---- property oracle --------------------------------------------------------
 
 type oracle struct {
-	e        *env
-	prev     *core.VerifSnapshot
-	gapKnown map[int]bool // accounts whose pending list carries the known gap
-	reinjected int        // re-injection clause: transactions that had to be (and were) pooled again
-	lowNonce int          // observations "pool nonce below the account nonce" (no pending tx): not part of the property
+	e          *env
+	prev       *core.VerifSnapshot
+	gapKnown   map[int]bool // accounts whose pending list carries the known gap
+	reinjected int          // re-injection clause: transactions that had to be (and were) pooled again
+	lowNonce   int          // observations "pool nonce below the account nonce" (no pending tx): not part of the property
 }
 
 func nonLocalOver(s *core.VerifSnapshot, pending bool, lim uint64) bool {
@@ -1195,6 +1195,7 @@ func randCfg(r *vf.Rng, n int) Cfg {
 }
 
 type runResult struct {
+	reinj  int
 	obs    []*Obs
 	what   string
 	where  int
@@ -1217,6 +1218,7 @@ func runCase(c *Case) (res runResult) {
 			res.what, res.where, res.detail = what, i, detail
 		}
 	}
+	res.reinj = o.reinjected
 	return
 }
 
@@ -1250,6 +1252,7 @@ func generate(r *vf.Rng) (*Case, runResult) {
 			}
 		}
 	}
+	res.reinj = o.reinjected
 	return c, res
 }
 
@@ -1272,6 +1275,7 @@ func loadCorpus(dir string) []*Case {
 }
 
 func classify(res *vf.Result, c *Case, rr runResult) {
+	res.Distribution["reinjection_clause_checked_txs"] += rr.reinj
 	for i, op := range c.Ops {
 		k := op.K
 		if k == "reorg" && op.Reset {
